@@ -53,7 +53,7 @@ pub fn check_wb(ck: &mut Ck, target: &SwC, w: &WbC, rng: &mut Rng, pairs: usize)
     let canon = |v: &[UInt]| v.len() == dim && v.iter().all(|z| z < p);
     let same_field = w.iso.base.p == *p && w.iso.base.depth() == d;
     ck.ob(H_SWU, "IsogenousCurve/same-base-field", same_field, || json!({}));
-    if !same_field {
+    if !same_field || !ck.ob(H_SWU, "IsogenousCurve/BaseField/is-a-field", is_field(t), || json!({"p": hexu(p)})) {
         return;
     }
     // --- SWU prerequisites on the isogenous curve
@@ -139,6 +139,9 @@ pub fn check_wb(ck: &mut Ck, target: &SwC, w: &WbC, rng: &mut Rng, pairs: usize)
 
 pub fn check_ell2(ck: &mut Ck, te: &TeC, e: &Ell2C) {
     let p = te.base.p.clone();
+    if !ck.ob(H_ELL2, "Elligator2/BaseField/is-a-field", is_field(&te.base) && te.base.depth() == 0, || json!({"p": hexu(&p)})) {
+        return;
+    }
     let z = Zp::new(p.clone());
     let ok1 = e.z.len() == 1 && e.z[0] < p && legendre(&e.z[0], &p) == -1;
     ck.ob(H_ELL2, "Z/non-square", ok1, || json!({"Z": hexv(&e.z)}));
